@@ -1358,6 +1358,9 @@ SDsetdimname(int32       id, /* IN: dataset ID */
                 NC_free_dim(dim);
                 (*dp)->count += 1;
                 (*ap) = (NC_array *)(*dp);
+
+                /* make sure it gets reflected in the file */
+                handle->flags |= NC_HDIRTY;
                 HGOTO_DONE(SUCCEED);
             }
         }
